@@ -374,7 +374,7 @@ Proof.
 Qed.
 
 (** ---------------------------------------------------------------- one tracking context *)
-Section Context.
+Section OneCtx.
 Variable s0 : st.
 Let start := length (nodes s0).
 Let P (p : nat) : Prop := region_edges s0 p = [].
@@ -630,4 +630,4 @@ Proof.
     symmetry. apply pairs_cons_snoc. exact LQ.
 Qed.
 
-End Context.
+End OneCtx.
